@@ -2,6 +2,7 @@ SPECIFICATION GSpec
 CONSTANTS
   Behaviors = {"A", "B"}
   MaxOps = 2
+  MaxRestarts = 0
   Defects = {}
   Depth = 8
 CONSTRAINT Emit
